@@ -17,6 +17,8 @@
  Rm memo          : every memoisation construct in the functions behind this property is keyed by everything it reads.
  Rp presence      : optional numeric fields are tested with `is None` / membership, never by truthiness (0 is a value).
  R7 carried       : the CSV writer carries no local from one response row to the next (must-definition dataflow).
+ R8 same request  : compare_reqs compares the same attribute of both requests at every comparison.
+ R9 first reason  : a blocking reason already set is never overwritten by a later check.
 """
 import ast
 
@@ -394,6 +396,24 @@ def r7_carried(ctx):
     ctx.need('R7.carried', 1)
 
 
+def r8_same_request(ctx):
+    """R8: two requests are aggregated into one result only if they are the same request: compare_reqs compares the same
+    attribute on both sides, for every attribute it looks at"""
+    from .common import compare_pairs_rule
+    compare_pairs_rule(ctx, 'R8.same-request', 'different requests would be merged under one joined id (or identical ones kept apart), and the '
+                       'result would report the figures of another request')
+    ctx.need('R8.same-request', 15)
+
+
+def r9_first_reason(ctx):
+    """R9: the blocking reason a response reports is the FIRST one the planner found for the request: a reason that is already
+    set is never overwritten by a later check (the reverse-direction verdict is guarded by `not hasattr`)"""
+    from .common import first_reason_rule
+    first_reason_rule(ctx, 'R9.first-reason', 'the response would report the reason of a later check (e.g. the reverse direction) instead '
+                      'of why the request was blocked')
+    ctx.need('R9.first-reason', 2)
+
+
 from ..memo import rule_for as _memo_rule
 
 RULES_MEMO = ('Rm.memo', _memo_rule('C19', 'a result would report figures of another request'))
@@ -404,4 +424,4 @@ from ..presence import rule_for as _presence_rule
 RULES_PRESENCE = ('Rp.presence', _presence_rule('C19', 'a legal zero would be reported as missing'))
 
 RULES = [('R6.own-objects', r6_own_objects), ('R1.metrics', r1_metrics), ('R2.directions', r2_directions), ('R3.dispatch', r3_dispatch), ('R4.csv', r4_csv),
-         ('R5.aggregation', r5_aggregation), RULES_MEMO, RULES_PRESENCE, ('R7.carried', r7_carried)]
+         ('R5.aggregation', r5_aggregation), RULES_MEMO, RULES_PRESENCE, ('R7.carried', r7_carried), ('R8.same-request', r8_same_request), ('R9.first-reason', r9_first_reason)]
